@@ -670,6 +670,7 @@ pub struct RtrPerAddrMetrics {
 impl RtrPerAddrMetrics {
     /// Returns the metrics data for the given address.
     fn get(&self, addr: IpAddr) -> Arc<RtrMetricsData> {
+        #[cfg(feature = "verif-hooks")] crate::verif::point("metrics.start");
         // See if we have that address already.
         let addrs = self.addrs.load();
         if let Ok(idx) = addrs.binary_search_by(|x| x.0.cmp(&addr)) {
@@ -677,7 +678,9 @@ impl RtrPerAddrMetrics {
         }
 
         // We don’t. Create a new slice with the address included.
+        #[cfg(feature = "verif-hooks")] crate::verif::point(&format!("metrics.lock {:p}", &self.write));
         let _write = self.write.lock();
+        #[cfg(feature = "verif-hooks")] crate::verif::point("metrics.locked");
 
         // Re-load self.addrs, it may have changed since.
         let addrs = self.addrs.load();
@@ -693,7 +696,9 @@ impl RtrPerAddrMetrics {
         new_addrs.push((addr, Default::default()));
         new_addrs.extend_from_slice(&addrs[idx..]);
         let res = new_addrs[idx].1.clone();
+        #[cfg(feature = "verif-hooks")] crate::verif::point("metrics.store");
         self.addrs.store(new_addrs.into());
+        #[cfg(feature = "verif-hooks")] crate::verif::point("metrics.stored");
         res
     }
 }
